@@ -4,6 +4,7 @@ import (
 	"fmt"
 	"go/types"
 	"os"
+	"regexp"
 	"sort"
 	"strings"
 
@@ -57,7 +58,7 @@ func (g *Gen) GenFunc(key string) (res *FnResult) {
 	for _, b := range fn.Blocks {
 		res.InstrCount += len(b.Instrs)
 	}
-	st := &State{g: g, reach: "true", heaps: map[string]string{}, armed: map[*ssa.Defer]string{}}
+	st := &State{g: g, reach: "true", heaps: map[string]string{}, armed: map[*ssa.Defer]string{}, merges: map[string][]mergeBranch{}}
 	c.next0 = c.declare("next0", SInt)
 	c.emit(fmt.Sprintf("(assert (>= %s 1))", c.next0))
 	c.emit(fmt.Sprintf("(assert (= wfnext@0 %s))", c.next0))
@@ -119,6 +120,12 @@ func (g *Gen) GenFunc(key string) (res *FnResult) {
 		env := fr.specEnv(r.st, nil, nil)
 		resultEnv(env, fn, r.vals)
 		for i, en := range con.Ensures {
+			if fgs := frameGoals(env, en.Expr); fgs != nil {
+				for _, goal := range fgs {
+					c.oblige(r.st, path, fmt.Sprintf("post%d@ret%d", i+1, j+1), goal, en.Text, r.pos)
+				}
+				continue
+			}
 			goal := env.Eval(en.Expr).Term
 			c.oblige(r.st, path, fmt.Sprintf("post%d@ret%d", i+1, j+1), goal, en.Text, r.pos)
 		}
@@ -134,8 +141,9 @@ func (g *Gen) GenFunc(key string) (res *FnResult) {
 				}
 			}
 			if ex != nil {
-				goal := g.unchangedAll(fr.entry, r.st, ex)
-				c.oblige(r.st, path, fmt.Sprintf("frame:modifies@ret%d", j+1), goal, "only the heaps named in modifies change on pre-existing objects", r.pos)
+				for _, goal := range chunkFrame(g.unchangedAll(fr.entry, r.st, ex)) {
+					c.oblige(r.st, path, fmt.Sprintf("frame:modifies@ret%d", j+1), goal, "only the heaps named in modifies change on pre-existing objects", r.pos)
+				}
 			}
 		}
 	}
@@ -243,6 +251,50 @@ func (g *Gen) HeaderFor(r *FnResult) string {
 	for _, d := range g.TE.dtDecls {
 		b.WriteString(d + "\n")
 	}
+	// prefixes of literals: for a literal P used as the left operand of a concatenation and a literal L that does
+	// not start with P, the fact Str_sub(L, 0, |P|) = "L[:|P|]" (a literal distinct from P) separates L from every
+	// P ++ x (with Str_sub(P ++ x, 0, |P|) = P)
+	var prefixFacts []string
+	if used != nil && used["Str_cat"] {
+		var texts []string
+		texts = append(texts, r.Lines...)
+		for _, o := range r.Obls {
+			texts = append(texts, o.Goal)
+		}
+		for _, pd := range g.pureDefs {
+			if used[pd.Name] {
+				texts = append(texts, pd.Text)
+			}
+		}
+		byName := map[string]string{}
+		for s, n := range g.strLits {
+			byName[n] = s
+		}
+		lefts := map[string]bool{}
+		for _, t := range texts {
+			for _, m := range catLeftLit.FindAllStringSubmatch(t, -1) {
+				lefts[m[1]] = true
+			}
+		}
+		var ps []string
+		for n := range lefts {
+			if s, ok := byName[n]; ok && s != "" {
+				ps = append(ps, s)
+			}
+		}
+		sort.Strings(ps)
+		lits := append([]string(nil), g.strOrder...)
+		for _, pfx := range ps {
+			for _, l := range lits {
+				if !used[g.strLits[l]] || len(l) < len(pfx) || strings.HasPrefix(l, pfx) {
+					continue
+				}
+				cut := g.StrLit(l[:len(pfx)])
+				used[cut] = true
+				prefixFacts = append(prefixFacts, fmt.Sprintf("(assert (= (Str_sub %s 0 %d) %s))", g.strLits[l], len(pfx), cut))
+			}
+		}
+	}
 	if len(g.strOrder) > 0 {
 		var names []string
 		for _, s := range g.strOrder {
@@ -251,10 +303,31 @@ func (g *Gen) HeaderFor(r *FnResult) string {
 				continue
 			}
 			names = append(names, n)
-			fmt.Fprintf(&b, "(declare-const %s Str) ; %q\n(assert (= (Str_len %s) %d))\n", n, trunc40(s), n, len(s))
+			fmt.Fprintf(&b, "(declare-const %s Str) ; %q\n(assert (= (Str_len %s) %d))\n(assert (= (Str_at %s 0) %d))\n", n, trunc40(s), n, len(s), n, s[0])
 		}
 		if len(names) > 0 {
 			fmt.Fprintf(&b, "(assert (distinct str_empty %s))\n", strings.Join(names, " "))
+		}
+		// concatenation instances among the literals of the VC: "." ++ "png" = ".png"
+		if has("Str_cat") {
+			var usedLits []string
+			for _, s := range g.strOrder {
+				if has(g.strLits[s]) {
+					usedLits = append(usedLits, s)
+				}
+			}
+			for _, a := range usedLits {
+				for _, c := range usedLits {
+					if len(c) > len(a) && strings.HasPrefix(c, a) {
+						if bn, ok := g.strLits[c[len(a):]]; ok && has(bn) {
+							fmt.Fprintf(&b, "(assert (= (Str_cat %s %s) %s))\n", g.strLits[a], bn, g.strLits[c])
+						}
+					}
+				}
+			}
+		}
+		for _, a := range prefixFacts {
+			b.WriteString(a + "\n")
 		}
 		// integer-looking literals: connect to itoa
 		for _, s := range g.strOrder {
@@ -266,6 +339,21 @@ func (g *Gen) HeaderFor(r *FnResult) string {
 	for _, n := range g.ufOrder {
 		if has(n) {
 			b.WriteString(g.ufDecl[n] + "\n")
+		}
+	}
+	if facts := g.prefixDLiteralFacts(has); len(facts) > 0 {
+		for _, a := range facts {
+			b.WriteString(a + "\n")
+		}
+		if r != nil {
+			const note = "fmt.Sprintf(\"<prefix>%d\", k) equals the string literal \"<prefix>k\" for the literals a VC mentions (instances, k a canonical non-negative decimal)"
+			dup := false
+			for _, a := range r.Assumed {
+				dup = dup || a == note
+			}
+			if !dup {
+				r.Assumed = append(r.Assumed, note)
+			}
 		}
 	}
 	g.noteEpoch(0)
@@ -307,6 +395,8 @@ func (g *Gen) HeaderFor(r *FnResult) string {
 	}
 	return b.String()
 }
+
+var catLeftLit = regexp.MustCompile(`\(Str_cat (lit\d+) `)
 
 func isDecimal(s string) bool {
 	if s == "" || len(s) > 9 {
